@@ -27,8 +27,10 @@ def run(tier="quick", seed=0, replay=None):
     if replay:
         print(open(replay).read())
         return 1
-    core.lean_stage(chk, "C11")
+    core.lean_stage(chk, "C11", extra_props=["C11b"])
     from harness import cover
+    from harness import fingerprint
+    fingerprint.direct(chk, ['ixai/utils/tracker/sliding_window.py'])
     _cv = cover.Cover(['ixai/utils/tracker/sliding_window.py'])
     _cv.__enter__()
     quick = tier == "quick"
@@ -40,9 +42,9 @@ def run(tier="quick", seed=0, replay=None):
         chk.violation("construct", f"SlidingWindowTracker(2) cannot be constructed on NumPy {__import__('numpy').__version__}: "
                       f"{core.err_kind(ex)}: {ex}", {"k": 2})
         return chk.finish()
-    for k in range(1, (5 if quick else 8) + 1):
+    for k in range(1, (chk.count(5, 8)) + 1):
         for n in range(1, 3 * k + 3):
-            for rep in range(2 if quick else 6):
+            for rep in range(chk.count(2, 6)):
                 style = chk.rng.choice(["int", "dyadic", "offset"])
                 if style == "int":
                     vs = [Q(chk.rng.randint(-8, 8)) for _ in range(n)]
